@@ -33,6 +33,7 @@ SpCtl  == {"savepoint", "release", "rollbackto"}
 DB0 == [t \in Tables |-> [r \in Rows |-> IF r = 1 THEN (IF t = "a" THEN 101 ELSE 201) ELSE 0]]
 St0 == [db |-> DB0, cdb |-> DB0, open |-> FALSE, mode |-> "none", wr |-> FALSE, sp |-> <<>>,
         pend |-> <<>>, gw |-> <<>>, out |-> <<>>, truth |-> <<>>, n |-> 0, stop |-> FALSE, rtx |-> FALSE,
+        sk |-> 0,                 \* statements not executed because the transactional request had failed
         kp |-> {}, stale |-> {}]  \* kinds of undone work whose events are kept in `pend` / were delivered (only when
                                   \* a Drop switch is off; "tx" = in a request with the transaction flag)
 
@@ -125,7 +126,7 @@ ExecDML(c, st, s) ==
 
 Exec(c, st0, s) ==
   LET st == [st0 EXCEPT !.n = @ + 1] IN
-  IF st.stop THEN st
+  IF st.stop THEN [st EXCEPT !.sk = @ + 1]
   ELSE CASE s.op \in DMLOps     -> ExecDML(c, st, s)
          [] s.op = "failprep"   -> Fail(c, st)
          [] s.op = "begin"      -> IF st.open THEN Fail(c, st)
@@ -163,9 +164,12 @@ RunSess(c, rs) == RunReqs(c, St0, rs, 1)
 Ctx(dstmt, dtxn, dsp, group, filt, ids, cf) ==
   [dstmt |-> dstmt, dtxn |-> dtxn, dsp |-> dsp, group |-> group, filt |-> filt, ids |-> ids,
    trig |-> cf.trig, cfilter |-> cf.filter, cids |-> cf.ids]
-(* db/cdc.go as written: which kinds of undone work have their pending events dropped *)
+(* db/cdc.go as written: which kinds of undone work have their pending events dropped.       *)
+(* RollbackHook (whole-transaction rollback, including the automatic one after a statement    *)
+(* fails in autocommit mode) drops them; nothing tells the streamer about a statement that     *)
+(* fails inside an open transaction or about ROLLBACK TO.                                      *)
 AsIsStmt == FALSE
-AsIsTxn  == FALSE
+AsIsTxn  == TRUE
 AsIsSp   == FALSE
 
 ----------------------------------------------------------------------------
@@ -243,5 +247,5 @@ SameShape == st.db = sa.db /\ st.cdb = sa.cdb /\ st.open = sa.open /\ st.truth =
 
 (* generator: every completed session with the delivered groups under the design and as written *)
 EmitCase == (phase = "idle" /\ sess # <<>>) =>
-              PrintT(<<"@@", ToJson([trig |-> cfg.trig, sess |-> sess, want |-> st.out, asis |-> sa.out, stale |-> sa.stale])>>)
+              PrintT(<<"@@", ToJson([trig |-> cfg.trig, sess |-> sess, want |-> st.out, asis |-> sa.out, stale |-> sa.stale, sk |-> st.sk])>>)
 =============================================================================
